@@ -419,7 +419,13 @@ def grid_case(kind, defaults):
           out = _io.StringIO()
           g.write(out)
           rows2.append([r for (_e, r) in pairtables.read_gulp_spline(out.getvalue())[0]["rows"]])
-      return dict(c=tuple(c), dr=tab.dr, rs=rs, rows2=rows2)
+        # another tabulation object with the same row count and another (symbolic) cutoff: its own grid
+        c2 = sym("cutoff2")
+        assume(c2 > 0)
+        out = _io.StringIO()
+        pt.GULP_PairTabulation([Potential("A", "B", core.uf("U"))], c2, c.nr).write(out)
+        rows3 = [r for (_e, r) in pairtables.read_gulp_spline(out.getvalue())[0]["rows"]]
+      return dict(c=tuple(c), dr=tab.dr, rs=rs, rows2=rows2, rows3=rows3 if not defaults else None)
     tab = et.SetFL_EAMTabulation([], [], c.cutoff, c.nr, c.cutoff_rho, c.nrho)
     rs = list(pt._r_value_iterator(tab)) if not defaults else []
     rhos = list(et._rho_value_iterator(tab)) if not defaults else []
@@ -462,6 +468,12 @@ def grid_case(kind, defaults):
       for i, r in enumerate(rows):
         t = path.term_of_number(r)
         vcs.append(VC("written[%d].r[%d]" % (wi, i), eq_formula(t if t is not None else rv(r), rv(i) * cu / rv(NR - 1)), info=dict(key="written-grid")))
+    if v.get("rows3"):
+      if len(v["rows3"]) != NR:
+        raise Structural("rows-written", "a second GULP tabulation (same nr, another cutoff) has %d rows, nr = %d" % (len(v["rows3"]), NR))
+      for i, r in enumerate(v["rows3"]):
+        t = path.term_of_number(r)
+        vcs.append(VC("second-object.r[%d]" % i, eq_formula(t if t is not None else rv(r), rv(i) * z3.Real("cutoff2") / rv(NR - 1)), info=dict(key="written-grid-second-object")))
     if kind != "pair":
       vcs.append(VC("cutoff_rho passed", eq_formula(term(c[2]), cr), info=dict(key="cutoff-rho-pass")))
       vcs.append(VC("drho", eq_formula(term(v["drho"]), cr / rv(NR + 1)), info=dict(key="drho")))
@@ -497,6 +509,12 @@ def grid_case(kind, defaults):
           nrow = len(pairtables.read_gulp_spline(out.getvalue())[0]["rows"])
           if nrow != NR:
             bad.append("the GULP table written %s from one tabulation object has %d rows, nr = %d" % (["first", "second"][wi], nrow, NR))
+        c2 = w.get("cutoff2") if isinstance(w.get("cutoff2"), float) and 1e-3 < w.get("cutoff2") < 1e4 else 2.5 * c0
+        out = _io.StringIO()
+        pt.GULP_PairTabulation([Potential("A", "B", lambda r: 1.0 + r)], c2, NR).write(out)
+        rr = [r for (_e, r) in pairtables.read_gulp_spline(out.getvalue())[0]["rows"]]
+        if len(rr) != NR or any(abs(x - i * c2 / (NR - 1)) > 1e-9 * c2 for i, x in enumerate(rr)):
+          bad.append("a second GULP tabulation with nr=%d and cutoff=%r is written on the grid %r" % (NR, c2, rr))
       rs = list(pt._r_value_iterator(tab))
       if len(rs) != NR or any(abs(x - i * c0 / (NR - 1)) > 1e-12 * c0 for i, x in enumerate(rs)):
         bad.append("separation grid for nr=%d cutoff=%r is %r" % (NR, c0, rs))
